@@ -216,6 +216,11 @@ def check_c06(tier):
     import tracecheck
     n_ev = tracecheck.validate_random_histories(V, 150 if tier == "quick" else 3000, 12 if tier == "quick" else 16, "c06")
     V.count(n_ev)
+    # B2 over the repository's own test-suite (hook: src/fixtures/verif_trace.rs): every analysis any test performs must be a
+    # step of SuiteTrace.tla; oracle for the analysed text = the real library's own analysis on a FRESH database
+    if not os.environ.get("VERIF_REPLAY"):
+        import suitetrace
+        n_ev += suitetrace.validate(V, "fresh")
     cov = {"states": meta["distinct"], "transitions": meta["transitions"], "traces_validated_against_impl": replayed + n_ev,
            "tlc": {"module": "History", "cfg": cfg, "wall_s": meta["wall_s"], "cached": meta.get("cached", False)},
            "exhaustive": True}
@@ -225,7 +230,9 @@ def check_c06(tier):
              "unparsable ones and moved/renamed/removed fixtures) up to the length bound and checks HistoryIndependent, "
              "MirrorAlways, NoDangling on the model; each history is executed on a long-lived real database and on a "
              "fresh twin built from the latest valid contents, and every navigation/reference/view/diagnostic answer "
-             "plus the projected maps are compared; non-trivial = a file edited twice or an unparsable version involved",
+             "plus the projected maps are compared; non-trivial = a file edited twice or an unparsable version involved; "
+             "B2: seeded random histories validated against HistoryTrace.tla, and every analysis performed by the repository's "
+             "own test-suite (run with the trace hook on) validated against SuiteTrace.tla with a fresh database as oracle",
         assumptions=["positional queries inside a currently unparsable document are not compared (statement scopes the invalid case to the rest of the workspace)",
                      "fresh server analyses files in the order of their last successful analysis"])
 
